@@ -156,11 +156,7 @@ impl Rasn {
     }
 
     pub(crate) fn inner_name(&self, name: &str, parent_name: &str) -> Ident {
-        format_ident!(
-            "{}{}",
-            parent_name,
-            self.to_rust_title_case(name).to_string()
-        )
+        format_ident!("{}{}", parent_name, Self::title_case(name))
     }
 
     pub(crate) fn int_type_token(
@@ -1428,9 +1424,10 @@ impl Rasn {
         formatted
     }
 
-    pub(crate) fn to_rust_title_case(&self, input: &str) -> TokenStream {
+    /// Title case without the escape for Rust keywords, for names that become part of a name
+    fn title_case(input: &str) -> String {
         let mut input = input.replace('-', "_");
-        let input = input.drain(..).fold(String::new(), |mut acc, c| {
+        input.drain(..).fold(String::new(), |mut acc, c| {
             if acc.is_empty() && c.is_lowercase() {
                 acc.push(c.to_ascii_uppercase());
             } else if acc.ends_with('_') {
@@ -1440,7 +1437,11 @@ impl Rasn {
                 acc.push(c);
             }
             acc
-        });
+        })
+    }
+
+    pub(crate) fn to_rust_title_case(&self, input: &str) -> TokenStream {
+        let input = Self::title_case(input);
         let name = if Self::RUST_KEYWORDS.contains(&input.as_str()) {
             String::from("R_") + &input
         } else {
